@@ -61,7 +61,10 @@ def irregularEnds : List (List String × List String) := [
   (["default"], [])]
 
 /-- state_switch, introspectable_prelude, end_type, state_switch_end_struct_or_union, the hand-written
-    introspectable test of start_member and the PASSTHROUGH branch of start_element_handler, statement by statement, as mirrored by
+    introspectable test of start_member, the "function pointer member of a union / boxed / interface is a gpointer,
+    its <callback> skipped" branch of start_function (the model takes its guard — the field has no type yet — as
+    true: a written field has ONE child describing its type; either way the parser ends in PASSTHROUGH, with a
+    warning when the guard fails) and the PASSTHROUGH branch of start_element_handler, statement by statement, as mirrored by
     `stateSwitch`, `startEv`, `endEv` -/
 def expectedHelpers : List (String × List String) := [
   ("state_switch", ["g_assert (ctx->state != newstate)", "ctx->prev_state = ctx->state", "ctx->state = newstate",
@@ -84,6 +87,10 @@ def expectedHelpers : List (String × List String) := [
     "return FALSE", "return TRUE"]),
   ("start_member:own-introspectable-test", ["introspectable = find_attribute (\"introspectable\", attribute_names, attribute_values)",
     "if (introspectable && atoi (introspectable) == 0)", "state_switch (ctx, STATE_PASSTHROUGH)", "return TRUE"]),
+  ("start_function:early-take:callback", ["states UNION_FIELD BOXED_FIELD INTERFACE_FIELD",
+    "if ctx->current_typed && ctx->current_typed->type == G_IR_NODE_FIELD && ((GIrNodeField *)ctx->current_typed)->type == NULL",
+    "((GIrNodeField *)ctx->current_typed)->type = parse_type (ctx, \"gpointer\")", "state_switch (ctx, STATE_PASSTHROUGH)",
+    "return TRUE"]),
   ("start_element_handler:passthrough", ["ctx->unknown_depth += 1", "return"])]
 
 /-- The hand-written half of the model is the source's: the irregular rows of end_element_handler
@@ -134,20 +141,19 @@ def contexts : List (Visit String) := [
 
 /-- The offences of the UNCHANGED tree (each replayed on the real scanner/compiler pair, see
     PENDING_FINDINGS in harness/c15.py):
-    * <record> directly in <record>, <union> directly in <union>: state_switch to the current state → abort;
-    * <field><callback/> in a <union>: start_function knows embedded callbacks only in class/struct fields → warning, then fatal. -/
+    * <record> directly in <record>, <union> directly in <union>: state_switch to the current state → abort.
+    (`<alias><attribute/>` and `<field><callback/>` in a union were offences until start_element_handler /
+    start_function learnt to take them.) -/
 def knownElementOffences : List (Offence String) := [
   ⟨"STRUCT", "record", "record", .selfSwitch⟩,
-  ⟨"UNION", "union", "union", .selfSwitch⟩,
-  ⟨"UNION_FIELD", "field", "callback", .unknown⟩]
+  ⟨"UNION", "union", "union", .selfSwitch⟩]
 
 /-- What girwriter.py could write but the scanner never produces: `_write_class` writes `node.fields`
-    for interfaces too, but no scanner path fills `ast.Interface.fields`
+    (and with them anonymous record / union members) for interfaces too, but no scanner path fills `ast.Interface.fields`
     (GDumpParser._introspect_interface does not call _add_record_fields; checked on every GIR of the run). -/
 def writerOnlyOffences : List (Offence String) := [
   ⟨"INTERFACE", "interface", "record", .unknown⟩,
-  ⟨"INTERFACE", "interface", "union", .unknown⟩,
-  ⟨"INTERFACE_FIELD", "field", "callback", .unknown⟩]
+  ⟨"INTERFACE", "interface", "union", .unknown⟩]
 
 /-- (written element, start_* function that reads its attributes), over all contexts -/
 def handlers : List (String × String) := [
@@ -219,6 +225,8 @@ def cArray : Nat := 1518043554169
 def cVarargs : Nat := 105378785178838899
 def cAttribute : Nat := 6520092115822118794341
 def cALIAS : Nat := 1379964371283
+def cCallback : Nat := 25607868168968168299
+def cStartFunction : Nat := 7533994588219474832613092375490414
 def silentN : List Nat := [6552803162866945713253]
 def startVisitN : Visit Nat := ⟨1, 1457407480404, false⟩
 def passthroughByDesignN : List Nat :=
@@ -243,18 +251,15 @@ def contextsN : List (Visit Nat) :=
   5710106693, false⟩, ⟨6795423601016620475762, 28427633244319211528097692378703580525512018, true⟩]
 def knownElementOffencesN : List (Offence Nat) :=
   [⟨373096600388436, 407254762222180, 407254762222180, .selfSwitch⟩,
-   ⟨1465897275214, 1603875204974, 1603875204974, .selfSwitch⟩,
-   ⟨412613401401179494360108100, 1539366546532, 25607868168968168299, .unknown⟩]
+   ⟨1465897275214, 1603875204974, 1603875204974, .selfSwitch⟩]
 def writerOnlyOffencesN : List (Offence Nat) :=
-  [⟨6074623012703112872773, 6667233708592636978021, 407254762222180, .unknown⟩, ⟨6074623012703112872773, 6667233708592636978021, 1603875204974,
-  .unknown⟩, ⟨1709854371026623682704719365642996804, 1539366546532, 25607868168968168299, .unknown⟩]
+  [⟨6074623012703112872773, 6667233708592636978021, 407254762222180, .unknown⟩,
+   ⟨6074623012703112872773, 6667233708592636978021, 1603875204974, .unknown⟩]
 def allOffencesN : List (Offence Nat) :=
   [⟨6074623012703112872773, 6667233708592636978021, 407254762222180, .unknown⟩,
    ⟨6074623012703112872773, 6667233708592636978021, 1603875204974, .unknown⟩,
    ⟨373096600388436, 407254762222180, 407254762222180, .selfSwitch⟩,
-   ⟨1465897275214, 1603875204974, 1603875204974, .selfSwitch⟩,
-   ⟨1709854371026623682704719365642996804, 1539366546532, 25607868168968168299, .unknown⟩,
-   ⟨412613401401179494360108100, 1539366546532, 25607868168968168299, .unknown⟩]
+   ⟨1465897275214, 1603875204974, 1603875204974, .selfSwitch⟩]
 def handlersN : List (Nat × Nat) :=
   [(1749146821634364818813561, 122988712444455282721586500523022917530233), (1683217206633762707562868, 122988712444455282655656885522420806279540),
   (101733839892997221, 7330698516634421508267538862400613), (6758528709918317437797, 480424657986153448057121205577138135909), (103689871060723557,
@@ -298,15 +303,14 @@ def allOffences : List (Offence String) := [
   ⟨"INTERFACE", "interface", "record", .unknown⟩,
   ⟨"INTERFACE", "interface", "union", .unknown⟩,
   ⟨"STRUCT", "record", "record", .selfSwitch⟩,
-  ⟨"UNION", "union", "union", .selfSwitch⟩,
-  ⟨"INTERFACE_FIELD", "field", "callback", .unknown⟩,
-  ⟨"UNION_FIELD", "field", "callback", .unknown⟩]
+  ⟨"UNION", "union", "union", .selfSwitch⟩]
 
 /-- every coded list of this file is the coding of its readable twin -/
 theorem C15_constants_coded :
     cPASSTHROUGH = code "PASSTHROUGH" ∧ cInstanceParameter = code "start_instance_parameter"
     ∧ cZero = code "0" ∧ cOne = code "1" ∧ cType = code "type" ∧ cArray = code "array" ∧ cVarargs = code "varargs"
-    ∧ cAttribute = code "attribute" ∧ cALIAS = code "ALIAS" ∧ silentN = [code "c:include"] ∧ startVisitN = codeVisit startVisit
+    ∧ cAttribute = code "attribute" ∧ cALIAS = code "ALIAS" ∧ cCallback = code "callback"
+    ∧ cStartFunction = code "start_function" ∧ silentN = [code "c:include"] ∧ startVisitN = codeVisit startVisit
     ∧ passthroughByDesignN = passthroughByDesign.map code
     ∧ contextsN = contexts.map codeVisit
     ∧ knownElementOffencesN = knownElementOffences.map codeOffence
@@ -365,13 +369,15 @@ theorem C15_elements_partial :
 /-- the by-name passthrough list written above is the one in girparser.c, and apart from it the only
     handled elements that end in PASSTHROUGH are <instance-parameter> (read, then its subtree skipped: an
     instance parameter has no argument blob), <attribute> inside <alias> (an alias is not stored in the
-    typelib, neither are its attributes) and elements skipped by introspectable_prelude or by the hand-written
+    typelib, neither are its attributes), <callback> taken by start_function without the prelude (a function
+    pointer member of a union / boxed / interface: the field becomes a gpointer) and elements skipped by introspectable_prelude or by the hand-written
     test of start_member (which is the only such test: `Gen.c15COwnIntroTest`) -/
 theorem C15_passthrough_list :
     Gen.c15CPassthroughByName = passthroughByDesign
     ∧ Gen.c15CSilentPrefixes = ["c:"]
     ∧ (Gen.c15CAcceptG.all fun g => g.2.all fun r => r.2.2.2.2.2.1 != cPASSTHROUGH || passthroughByDesignN.contains r.1
-        || r.2.1 == cInstanceParameter || (g.1 == cALIAS && r.1 == cAttribute)) = true
+        || r.2.1 == cInstanceParameter || (g.1 == cALIAS && r.1 == cAttribute)
+        || (r.1 == cCallback && r.2.1 == cStartFunction)) = true
     ∧ Gen.c15COwnIntroTest = ["start_member"] :=
   ⟨rfl, rfl, by decide +kernel, rfl⟩
 
